@@ -36,7 +36,7 @@ class TlcResult:
 
 def run(module: str, cfg: str, *, label: str = "", env: dict = None, workers="auto", timeout: int = 600,
         simulate: str = None, depth: int = None, coverage: bool = True, cont: bool = False,
-        deadlock: bool = False, extra=(), heap: str = "4g", dfs: bool = False) -> TlcResult:
+        deadlock: bool = False, extra=(), heap: str = "4g", dfs: bool = False, on_print=None) -> TlcResult:
     """Run TLC on /verif/spec/<module>.tla with the given configuration text."""
     _counter[0] += 1
     work = scratch() / f"tlc{_counter[0]}"
@@ -65,10 +65,25 @@ def run(module: str, cfg: str, *, label: str = "", env: dict = None, workers="au
     if env:
         e.update({k: str(v) for k, v in env.items()})
     t0 = time.time()
-    p = subprocess.run(cmd, cwd=str(SPEC), env=e, stdout=subprocess.PIPE, stderr=subprocess.STDOUT, text=True)
     r = TlcResult()
+    # stream the output: PrintT(ToJson(..)) payloads are decoded (or handed to on_print) line by line and not kept as text
+    p = subprocess.Popen(cmd, cwd=str(SPEC), env=e, stdout=subprocess.PIPE, stderr=subprocess.STDOUT, text=True, bufsize=1 << 20)
+    kept = []
+    for line in p.stdout:
+        if line.startswith('"{') or line.startswith('"['):
+            try:
+                obj = json.loads(json.loads(line))
+                if on_print is not None:
+                    on_print(obj)
+                else:
+                    r.printed.append(obj)
+                continue
+            except Exception:
+                pass
+        kept.append(line)
+    p.wait()
     r.wall = time.time() - t0
-    r.out, r.rc, r.label = p.stdout, p.returncode, label or module
+    r.out, r.rc, r.label = "".join(kept), p.returncode, label or module
     r.mode = "simulate" if simulate else "bfs"
     r.timed_out = p.returncode in (124, 137)
     _parse(r)
@@ -108,12 +123,6 @@ def _parse(r: TlcResult):
         m = _RE_COV.match(line)
         if m:
             r.action_counts[m.group(1)] = r.action_counts.get(m.group(1), 0) + int(m.group(4))
-        if line.startswith('"{') or line.startswith('"['):
-            try:
-                r.printed.append(json.loads(json.loads(line)))
-                continue
-            except Exception:
-                pass
         if in_trace and len(trace) < 400:
             trace.append(line)
     r.trace_text = "\n".join(trace)
